@@ -70,15 +70,26 @@ def _inject_unpicklable(draw, spec):
     o["attrs"][i][1] = bad
 
 
+PRES = {
+    "zip": ["absent", "earlier_save", "unrelated_file", "unrelated_dir", "earlier_other_kind", "hardlink_twin", "symlink_to_file"],
+    "dir": ["absent", "earlier_save", "unrelated_file", "unrelated_dir", "earlier_other_kind", "symlink_to_dir"],
+}
+# every (store, pre-state, mode) combination is its own stratum of the search (see search()): a uniform draw over
+# the 26 combinations left whole combinations out of a quick run (seeded change C08-7 was then caught at one seed
+# and missed at another)
+STRATA = [(store, pre, mode) for store in ("zip", "dir") for pre in PRES[store] for mode in ("o", "w")]
+
+
 @st.composite
-def cases(draw):
+def cases(draw, stratum=None):
     root = draw(small_objects())
     natural = draw(st.integers(0, 5)) == 0
     if natural:
         _inject_unpicklable(draw, root)
-    store = draw(st.sampled_from(["zip", "dir"]))
-    mode = draw(st.sampled_from(["w", "o", "o"]))
-    pre = draw(st.sampled_from(["absent", "earlier_save", "earlier_save", "unrelated_file", "unrelated_dir", "earlier_other_kind"] + (["hardlink_twin", "symlink_to_file"] if store == "zip" else ["symlink_to_dir"])))
+    if stratum is None:
+        store, pre, mode = draw(st.sampled_from(STRATA))
+    else:
+        store, pre, mode = stratum
     case = {
         "kind": "fault",
         "root": root,
@@ -370,7 +381,11 @@ class Scenario:
                 if raised is None:
                     raise core.Violation("an exception injected at site %d (%s) was swallowed: save() returned normally" % (k, faults.sites[k - 1] if k <= len(faults.sites) else "?"), kcase)
             elif raised is not None and not natural and not case.get("warn_error"):
-                raise core.Violation("un-faulted save raised %s: %s" % (type(raised).__name__, str(raised)[:200]), kcase)
+                # save() refused or failed on its own (e.g. mode 'o' on a target that is a symlink to a directory store:
+                # shutil.rmtree refuses symlinks).  The statement does not promise that a save succeeds, it says what
+                # holds after one that "fails for any reason": judged as a failure below.
+                failed = True
+                ctx.count("save_failed_without_injected_fault:%s:%s/%s/%s" % (type(raised).__name__, case["store"], case["pre"], case["mode"]))
             elif natural and raised is None and not case.get("warn_error"):
                 raise core.Violation("saving a graph with an unserialisable leaf did not raise", kcase)
 
@@ -437,6 +452,8 @@ def check(ctx, case):
 
 
 def search(ctx):
-    core.run_given(ctx, "faults", cases(), lambda c: check(ctx, c), ctx.n(40, 120), shrink=True)
+    for stratum in STRATA:
+        k = ctx.n(3, 10) if stratum[2] == "o" else ctx.n(2, 4)
+        core.run_given(ctx, "faults/%s/%s/%s" % stratum, cases(stratum), lambda c: check(ctx, c), k, shrink=True)
     ctx.extra["exhaustive"] = False
     ctx.extra["fault_sites_enumerated_exhaustively_per_case"] = True
